@@ -26,8 +26,14 @@ type Msg struct {
 type Step struct {
 	Block bool  `json:"block,omitempty"`
 	Msgs  []Msg `json:"msgs,omitempty"`
+	// NoTx: the messages are executed outside a transaction (as a passed governance proposal
+	// does): ctx.TxBytes() is empty, so all such creations see the same tx hash
+	NoTx bool `json:"notx,omitempty"`
 }
-type History struct{ Steps []Step }
+type History struct {
+	Counter0 uint32 // initial value of the intra-tx counter (near 2^32 in the wrap stream)
+	Steps    []Step
+}
 
 var strs = []string{"", "sha256:ab12", "SHA256", "ipfs://x", "meta-1", "d2", "md5", "http://y", "other"}
 
@@ -51,6 +57,9 @@ func gen(r *lib.Rand, tier, stream string, i int) History {
 		{{1, 2, 3, 4}, {1, 2, 3, 4}},
 	}
 	var h History
+	if stream == "wrap" {
+		h.Counter0 = uint32(4294967296 - int64(1+r.Intn(6)))
+	}
 	for k := 0; k < n; k++ {
 		switch r.Weighted(6, 2) {
 		case 1:
@@ -60,7 +69,7 @@ func gen(r *lib.Rand, tier, stream string, i int) History {
 			var ms []Msg
 			for j := 0; j < nm; j++ {
 				m := Msg{Creator: r.Intn(3)}
-				switch r.Weighted(12, 1, 1, 1, 1) {
+				switch r.Weighted(40, 1, 1, 1, 1) {
 				case 0:
 					m.Contents = pool[r.Intn(len(pool))]
 				case 1:
@@ -75,7 +84,7 @@ func gen(r *lib.Rand, tier, stream string, i int) History {
 				}
 				ms = append(ms, m)
 			}
-			h.Steps = append(h.Steps, Step{Msgs: ms})
+			h.Steps = append(h.Steps, Step{Msgs: ms, NoTx: stream == "notx" && r.Chance(2, 3)})
 		}
 	}
 	return h
@@ -101,6 +110,9 @@ func exec(h History) lib.Case {
 	var k recordkeeper.Keeper
 	e := lib.NewEnv(lib.EnvOpts{NActors: 3, Consumers: []interface{}{&k}})
 	c := lib.Case{Stats: map[string]int{}}
+	if h.Counter0 != 0 {
+		k.SetIntraTxCounter(e.Ctx, h.Counter0)
+	}
 	ids := lib.NewInterner()
 	txs := lib.NewInterner()
 	var all []created
@@ -119,6 +131,9 @@ func exec(h History) lib.Case {
 			c.Steps = append(c.Steps, "block")
 		} else {
 			txBytes := e.NextTxBytes()
+			if st.NoTx {
+				txBytes = nil
+			}
 			txh := sha256.Sum256(txBytes)
 			txi := txs.Id(string(txh[:]))
 			var msgs []sdk.Msg
@@ -179,7 +194,7 @@ func exec(h History) lib.Case {
 		obs := lib.App("mkObs", lib.Z(int64(code)), lib.L(retIDs...), lib.ZU(uint64(k.GetIntraTxCounter(e.Ctx))), lib.L(reads...))
 		steps = append(steps, lib.Pair(stepTerm, obs))
 	}
-	c.Coq = lib.L(steps...)
+	c.Coq = lib.Pair(lib.ZU(uint64(h.Counter0)), lib.L(steps...))
 	c.NonTrivial = dupContent
 	return c
 }
